@@ -372,13 +372,15 @@ current clock (which the fired one had reached) with a part of what was left of 
 deadline; the entry pays that part out of its remainder. -/
 theorem TInv.rearm {now : Nat} {s : St} (h : TInv now s) {q : DelayQ} {e : DqEntry} {en : SEntry} {s2 : St}
     (hp : s.timers.pollExpired now = (q, .expired e)) (hen : en ∈ s.inflight) (hk : en.timerKey = e.key)
-    (hv : en.id = e.val) (hr : Server.rearm { s with timers := q } now en = some s2) : TInv now s2 := by
+    (hv : en.id = e.val) (hr : Server.rearm { s with timers := q } now (now - e.whenMs * nsPerMs) en = some s2) :
+    TInv now s2 := by
   have hwfq := DelayQ.pollExpired_WF hp h.wf
   have hsq := DelayQ.pollExpired_Sound hp h.sound
   obtain ⟨hcore, hcs⟩ := DelayQ.pollExpired_expired hp h.wf
   have hne := DelayQ.pollExpired_not_early hp h.sound
   obtain ⟨q', key, w, hi, rfl⟩ := rearm_some hr
   simp only at hi
+  generalize hlate : now - e.whenMs * nsPerMs = late at hi ⊢
   obtain ⟨hkey, hnk, hcs'⟩ := DelayQ.insert_ok hi
   have hwf := DelayQ.insert_WF hi hwfq
   have hs := DelayQ.insert_Sound hi hsq
@@ -387,13 +389,14 @@ theorem TInv.rearm {now : Nat} {s : St} (h : TInv now s) {q : DelayQ} {e : DqEnt
   have hexecs : (if w = true then wakeServer { s with timers := q } else { s with timers := q }).execs = s.execs := by
     cases w <;> simp
   -- membership in the re-keyed table
-  have hmem : ∀ x', x' ∈ s.inflight.map (rearmUpd en.id key) ↔ ∃ x ∈ s.inflight, x' = rearmUpd en.id key x := by
+  have hmem : ∀ x', x' ∈ s.inflight.map (rearmUpd en.id key late) ↔ ∃ x ∈ s.inflight, x' = rearmUpd en.id key late x := by
     intro x'; simp only [List.mem_map]; constructor
     · rintro ⟨x, hx, rfl⟩; exact ⟨x, hx, rfl⟩
     · rintro ⟨x, hx, rfl⟩; exact ⟨x, hx, rfl⟩
-  have hupd_en : rearmUpd en.id key en = { en with timerKey := key, remainder := en.remainder - clampTimeout en.remainder } := by
+  have hupd_en : rearmUpd en.id key late en =
+      { en with timerKey := key, remainder := (en.remainder - late) - clampTimeout (en.remainder - late) } := by
     unfold rearmUpd; rw [if_pos (by simp)]
-  have hother : ∀ x ∈ s.inflight, x ≠ en → rearmUpd en.id key x = x := by
+  have hother : ∀ x ∈ s.inflight, x ≠ en → rearmUpd en.id key late x = x := by
     intro x hx hxe
     exact rearmUpd_ne (fun hid => hxe (eq_of_map_nodup (·.id) h.ids hx hen hid))
   -- the old core of another entry survives the pop and the insert
@@ -406,8 +409,8 @@ theorem TInv.rearm {now : Nat} {s : St} (h : TInv now s) {q : DelayQ} {e : DqEnt
     have hcc' : c = cx := DelayQ.cores_key_unique h.wf hc hcx (by rw [hck, hkx])
     exact eq_of_map_nodup (·.id) h.ids hx hen (by rw [← hvx, ← hcc', hcc, hv0])
   refine ⟨hwf, hs, ?_, ?_, ?_, ?_, ?_, ?_⟩
-  · show ((s.inflight.map (rearmUpd en.id key)).map (·.id)).Nodup
-    have : (s.inflight.map (rearmUpd en.id key)).map (·.id) = s.inflight.map (·.id) := by
+  · show ((s.inflight.map (rearmUpd en.id key late)).map (·.id)).Nodup
+    have : (s.inflight.map (rearmUpd en.id key late)).map (·.id) = s.inflight.map (·.id) := by
       rw [List.map_map]; apply List.map_congr_left; intro x _; simp
     rw [this]; exact h.ids
   · intro x' hx'
@@ -426,7 +429,7 @@ theorem TInv.rearm {now : Nat} {s : St} (h : TInv now s) {q : DelayQ} {e : DqEnt
       have hxe : x ≠ en := fun hxe => hcne (by rw [← a, hxe, hk])
       exact ⟨x, (hmem x).mpr ⟨x, hx, (hother x hx hxe).symm⟩, a, b⟩
     · subst hc
-      exact ⟨rearmUpd en.id key en, (hmem _).mpr ⟨en, hen, rfl⟩, by rw [hupd_en], by rw [hupd_en]⟩
+      exact ⟨rearmUpd en.id key late en, (hmem _).mpr ⟨en, hen, rfl⟩, by rw [hupd_en], by rw [hupd_en]⟩
   · intro x' hx'
     obtain ⟨x, hx, rfl⟩ := (hmem x').mp hx'
     rw [hexecs, rearmUpd_rid]; exact h.ridLt x hx
@@ -438,7 +441,7 @@ theorem TInv.rearm {now : Nat} {s : St} (h : TInv now s) {q : DelayQ} {e : DqEnt
     · subst hxe
       rw [hupd_en] at hck hrid ⊢
       simp only at hck hrid ⊢
-      have hcnew : c = (key, x.id, max (ceilMs (now + clampTimeout x.remainder)) q.wheelElapsed) := by
+      have hcnew : c = (key, x.id, max (ceilMs (now + clampTimeout (x.remainder - late))) q.wheelElapsed) := by
         rcases (hcs' c).mp hc with hc | hc
         · exact absurd hck (hfresh c hc)
         · exact hc
@@ -446,13 +449,13 @@ theorem TInv.rearm {now : Nat} {s : St} (h : TInv now s) {q : DelayQ} {e : DqEnt
       have hold := h.dl x hen _ hcore hk.symm ex hex hrid
       refine ⟨?_, hold.2⟩
       have hold1 : ex.deadline ≤ e.whenMs * nsPerMs + x.remainder := hold.1
-      show ex.deadline ≤ max (ceilMs (now + clampTimeout x.remainder)) q.wheelElapsed * nsPerMs +
-        (x.remainder - clampTimeout x.remainder)
-      have h1 := ceilMs_ge' (now + clampTimeout x.remainder)
-      have h2 : ceilMs (now + clampTimeout x.remainder) * nsPerMs ≤
-          max (ceilMs (now + clampTimeout x.remainder)) q.wheelElapsed * nsPerMs :=
+      show ex.deadline ≤ max (ceilMs (now + clampTimeout (x.remainder - late))) q.wheelElapsed * nsPerMs +
+        ((x.remainder - late) - clampTimeout (x.remainder - late))
+      have h1 := ceilMs_ge' (now + clampTimeout (x.remainder - late))
+      have h2 : ceilMs (now + clampTimeout (x.remainder - late)) * nsPerMs ≤
+          max (ceilMs (now + clampTimeout (x.remainder - late))) q.wheelElapsed * nsPerMs :=
         Nat.mul_le_mul_right _ (Nat.le_max_left _ _)
-      have h3 := clampTimeout_le_self x.remainder
+      have h3 := clampTimeout_le_self (x.remainder - late)
       omega
     · rw [hother x hx hxe] at hck hrid ⊢
       have hcold : c ∈ s.timers.cores := by
@@ -527,8 +530,9 @@ theorem TInv.expireStep_ab {now : Nat} {s : St} (h : TInv now s) :
     refine ⟨Or.inr ⟨en'.rid, abortExec_ab _ en'.rid, fun ex hex hr => ?_⟩, fun h => by cases h⟩
     have hne := DelayQ.pollExpired_not_early hp h.sound
     have := (h.dl en' hen _ hcore hk.symm ex hex hr).1
-    rw [h0, Nat.add_zero] at this
-    exact Nat.le_trans this hne
+    have hw : (DelayQ.core e).2.2 = e.whenMs := rfl
+    rw [hw] at this
+    omega
   | rearmed q e en' s2 hp hf h0 hr =>
     have := (rearm_frame hr).execs
     exact ⟨Or.inl (by rw [this]; exact ExecsAb.refl _ _), fun _ => this⟩
@@ -794,7 +798,7 @@ theorem obsExt_pollExpired (s : St) (now : Nat) : ObsExt now s (pollExpired s no
   | panicked q e en hp hf h0 hr =>
     refine ObsExt.trans (ObsExt.of_eq (s' := { s1 with poisoned := true }) rfl) (ObsExt.emit _ _ ?_)
     intro _ _ h; cases h
-    exact ⟨rfl, fun hf' => insert_panic_late hf' q now en.remainder en.id (rearm_none hr)⟩
+    exact ⟨rfl, fun hf' => insert_panic_late hf' q now _ en.id (rearm_none hr)⟩
 
 /-- `removeRequest` never panics in a state satisfying the invariant -/
 theorem TInv.removeReq_obs {now : Nat} {s : St} (h : TInv now s) (id : Nat) :
@@ -1139,8 +1143,8 @@ theorem dropServer_aborts_all (s : St) (hlive : (s.dropped || s.poisoned) = fals
 remainder) -/
 def _root_.TarpcModel.Server.SEntry.ir (e : SEntry) : Nat × Nat := (e.id, e.rid)
 
-theorem map_ir_rearmUpd (l : List SEntry) (id key : Nat) :
-    (l.map (rearmUpd id key)).map SEntry.ir = l.map SEntry.ir := by
+theorem map_ir_rearmUpd (l : List SEntry) (id key late : Nat) :
+    (l.map (rearmUpd id key late)).map SEntry.ir = l.map SEntry.ir := by
   rw [List.map_map]; apply List.map_congr_left; intro x _
   simp [SEntry.ir]
 
@@ -1209,7 +1213,7 @@ theorem expireStep_touch (s : St) (now : Nat) :
     exact ExpTouch.expired _ e.val en hf (by simp) g hg hm
   | rearmed q e en s2 hp hf h0 hr =>
     obtain ⟨q', key, w, _, rfl⟩ := rearm_some hr
-    exact ⟨map_ir_rearmUpd _ _ _, by cases w <;> simp⟩
+    exact ⟨map_ir_rearmUpd _ _ _ _, by cases w <;> simp⟩
   | panicked q e en hp hf h0 hr => exact ExpTouch.same _ _ rfl rfl (by intro h; cases h)
 
 /-- **Frame** of the expiry path: `pollExpired` either leaves the table (up to re-armed timer keys and
